@@ -38,11 +38,12 @@ const (
 	mOIDReplace
 	mIntSet
 	mEmptyOID
+	mWrapTrail
 	mOpCount
 )
 
 var mutNames = []string{"retag", "len-delta", "len-nonminimal", "len-indefinite", "swap", "dup", "delete", "content", "int-nonminimal", "empty",
-	"latin", "bad-bool", "bit-pad", "odd-time", "flip", "truncate", "insert", "high-tag", "arc80", "append-byte", "oid-replace", "int-set", "empty-oid"}
+	"latin", "bad-bool", "bit-pad", "odd-time", "flip", "truncate", "insert", "high-tag", "arc80", "append-byte", "oid-replace", "int-set", "empty-oid", "wrap-trail"}
 
 // framingOps change the outer framing of the input (they are left out where an input must stay one TLV).
 var framingOps = map[int]bool{mTruncate: true, mAppendByte: true}
@@ -70,11 +71,48 @@ var interestingOIDs = [][]int{
 var interestingInts = [][]byte{{0}, {1}, {2}, {3}, {0xff}, {0x80}, {0x7f}, {0x00, 0x80}, {0x7f, 0xff, 0xff, 0xff}, {0x00, 0x80, 0x00, 0x00, 0x00}, {0x80, 0x00, 0x00, 0x00},
 	{0x7f, 0xff, 0xff, 0xff, 0xff, 0xff, 0xff, 0xff}, {0x00, 0x80, 0x00, 0x00, 0x00, 0x00, 0x00, 0x00, 0x00}, {0x80, 0, 0, 0, 0, 0, 0, 0}, {0xff, 0x7f}, {}, {0x01, 0x00, 0x01}}
 
+// mix spreads rapid's small-biased integers over a whole index range (0 stays a fixed point of shrinking).
+func mix(x int) int { return int((uint64(x) * 0x9E3779B97F4A7C15) >> 33) }
+
+// uni draws a near-uniform non-negative integer: rapid's integer generators favour 0, 1 and the bounds,
+// which would turn every table lookup into a lopsided choice; four bytes hashed together do not.
+func uni(t *rapid.T, label string) int {
+	b := rapid.SliceOfN(rapid.Byte(), 4, 4).Draw(t, label)
+	return mix(int(b[0]) | int(b[1])<<8 | int(b[2])<<16 | int(b[3])<<24 | 1<<32)
+}
+
+// opTable weights the operations: value-level ones (which mostly leave a parseable object) three times
+// as often as the framing-level ones (which mostly end in a fatal error).
+var opTable = func() []int {
+	var t []int
+	for op := 0; op < mOpCount; op++ {
+		w := 3
+		switch op {
+		case mRetag, mLenDelta, mLenNonMinimal, mLenIndefinite, mEmpty, mTruncate, mHighTag, mAppendByte, mContent:
+			w = 1
+		case mIntNonMinimal, mLatin, mEmptyOID:
+			w = 5
+		}
+		for i := 0; i < w; i++ {
+			t = append(t, op)
+		}
+	}
+	return t
+}()
+
+var nmutTable = []int{0, 1, 1, 1, 1, 2, 2, 2, 3, 3, 4}
+
 func genMutsOps(t *rapid.T, min, max int, allowFraming bool) []Mut {
-	n := rapid.IntRange(min, max).Draw(t, "nmut")
+	n := nmutTable[uni(t, "nmut")%len(nmutTable)]
+	if n < min {
+		n = min
+	}
+	if n > max {
+		n = max
+	}
 	out := make([]Mut, 0, n)
 	for i := 0; i < n; i++ {
-		m := Mut{Op: rapid.IntRange(0, mOpCount-1).Draw(t, "op"), Node: rapid.IntRange(0, 255).Draw(t, "node"), A: rapid.IntRange(0, 255).Draw(t, "a")}
+		m := Mut{Op: opTable[uni(t, "op")%len(opTable)], Node: rapid.IntRange(0, 1<<16).Draw(t, "node"), A: rapid.IntRange(0, 1<<16).Draw(t, "a")}
 		if !allowFraming && framingOps[m.Op] {
 			m.Op = mFlip
 		}
@@ -83,7 +121,7 @@ func genMutsOps(t *rapid.T, min, max int, allowFraming bool) []Mut {
 			m.B = rapid.SliceOfN(rapid.Byte(), 0, 12).Draw(t, "mb")
 		case mRetag:
 			if rapid.Bool().Draw(t, "retagknown") {
-				m.A = int(rapid.SampledFrom([]byte{0x01, 0x02, 0x03, 0x04, 0x05, 0x06, 0x0a, 0x0c, 0x12, 0x13, 0x14, 0x16, 0x17, 0x18, 0x1b, 0x1e, 0x30, 0x31, 0x80, 0x81, 0x82, 0x86, 0x87, 0xa0, 0xa1, 0xa3, 0xa4, 0x40, 0x60, 0xc0, 0x1f, 0x3f, 0x9f, 0xbf}).Draw(t, "retagv"))
+				m.A = 1<<20 | int(rapid.SampledFrom([]byte{0x01, 0x02, 0x03, 0x04, 0x05, 0x06, 0x0a, 0x0c, 0x12, 0x13, 0x14, 0x16, 0x17, 0x18, 0x1b, 0x1e, 0x30, 0x31, 0x80, 0x81, 0x82, 0x86, 0x87, 0xa0, 0xa1, 0xa3, 0xa4, 0x40, 0x60, 0xc0, 0x1f, 0x3f, 0x9f, 0xbf}).Draw(t, "retagv"))
 			}
 		}
 		out = append(out, m)
@@ -206,10 +244,10 @@ func pick(nodes []*derx.Node, idx int, tags ...byte) *derx.Node {
 			}
 		}
 		if len(el) > 0 {
-			return el[idx%len(el)]
+			return el[mix(idx)%len(el)]
 		}
 	}
-	return nodes[idx%len(nodes)]
+	return nodes[mix(idx)%len(nodes)]
 }
 
 // applyMuts applies the mutations to the TLV encoding d and returns the new bytes together with the
@@ -230,12 +268,15 @@ func applyMuts(d []byte, muts []Mut) ([]byte, []string) {
 	for _, m := range muts {
 		nodes := mt.root.All()
 		done := true
+		if m.Op != mRetag || m.A < 1<<20 {
+			m.A = mix(m.A) // table indices, byte positions and bit numbers are derived from the spread value
+		}
 		switch m.Op {
 		case mRetag:
 			n := pick(nodes, m.Node)
 			b := byte(m.A)
 			if b&0x1f == 0x1f {
-				n.ID = []byte{b, byte(31 + m.Node%97)}
+				n.ID = []byte{b, byte(31 + mix(m.Node)%97)}
 			} else {
 				n.ID = []byte{b}
 			}
@@ -345,7 +386,7 @@ func applyMuts(d []byte, muts []Mut) ([]byte, []string) {
 			mt.setContent(pick(nodes, m.Node, derx.TagUTCTime, derx.TagGenTime), []byte(oddTimes[m.A%len(oddTimes)]))
 		case mFlip:
 			n := pick(nodes, m.Node)
-			for tries := 0; n.Children != nil && tries < 4; tries++ { // prefer a leaf: flipping inside re-encoded children is a content mutation of them
+			for tries := 0; len(n.Children) > 0 && tries < 4; tries++ { // prefer a leaf: flipping inside re-encoded children is a content mutation of them
 				n = n.Children[(m.A+tries)%len(n.Children)]
 			}
 			c := append([]byte{}, mt.contentOf(n)...)
@@ -413,6 +454,25 @@ func applyMuts(d []byte, muts []Mut) ([]byte, []string) {
 		case mOIDReplace:
 			n := pick(nodes, m.Node, derx.TagOID)
 			mt.setContent(n, derx.OIDContent(interestingOIDs[m.A%len(interestingOIDs)]))
+		case mWrapTrail:
+			// trailing element inside an OCTET STRING / BIT STRING that wraps DER (extension values, RSA keys),
+			// or - when the input has none - at the end of any constructed node
+			var wraps []*derx.Node
+			for _, x := range nodes {
+				if x.Children != nil && !x.Constructed() {
+					wraps = append(wraps, x)
+				}
+			}
+			var n *derx.Node
+			if len(wraps) > 0 {
+				n = wraps[mix(m.Node)%len(wraps)]
+			} else if n = pick(nodes, m.Node, derx.TagSequence); n.Children == nil {
+				done = false
+				break
+			}
+			junk := [][]byte{{0x05, 0x00}, {0x02, 0x01, 0x00}, {0x30, 0x00}, {0x04, 0x01, 0xff}, {0x01, 0x01, 0xff}}[m.A%5]
+			k, _, _ := derx.Parse(junk)
+			n.Children = append(append([]*derx.Node{}, n.Children...), k.Clone())
 		case mIntSet:
 			n := pick(nodes, m.Node, derx.TagInteger, derx.TagEnumerated)
 			mt.setContent(n, interestingInts[m.A%len(interestingInts)])
